@@ -6,6 +6,7 @@ import (
 	"fmt"
 	"net"
 	"sync"
+	"sync/atomic"
 	"time"
 
 	"github.com/bolkedebruin/rdpgw/cmd/rdpgw/identity"
@@ -201,9 +202,18 @@ func runC06(r *Run) {
 		if r.Thorough() && rng.Intn(20) == 0 {
 			upTotal, downTotal = 4<<20, 4<<20
 		}
+		c06BigSegs = i%5 == 4
+		if c06BigSegs && upTotal < 200000 {
+			upTotal = 400000
+		}
+		c06Stall = 0
+		if r.Thorough() && i == 7 { // once: a client that stops reading for 11 s while the host streams
+			c06Stall, downTotal, kind = 11*time.Second, 4<<20, "legacy"
+		}
 		up := randBytes(upTotal)
 		down := randBytes(downTotal)
 		res := relayOnce(kind, gws, listeners[0], port, up, down, rng)
+		c06BigSegs, c06Stall = false, 0
 		if res.inconclusive != "" {
 			r.Inconclusive()
 			r.Dist("api-inconclusive:" + res.inconclusive)
@@ -211,8 +221,8 @@ func runC06(r *Run) {
 		}
 		r.Count(fmt.Sprintf("api:%s:%d:%d:%d", kind, upTotal, downTotal, i))
 		r.Dist("api:" + kind)
-		rep := fmt.Sprintf("transport=%s client→host %d bytes in %d DATA packets over %d transport writes, host→client %d bytes\nhost received %d bytes (first difference at %d)\nclient received %d payload bytes in DATA packets (first difference at %d)\n",
-			kind, len(up), res.upPkts, res.upSegs, len(down), len(res.hostGot), firstDiff(res.hostGot, up), len(res.clientGot), firstDiff(res.clientGot, down))
+		rep := fmt.Sprintf("transport=%s client→host %d bytes in %d DATA packets over %d transport writes, host→client %d bytes; large transport messages=%v; client stalled for %v\nhost received %d bytes (first difference at %d)\nclient received %d payload bytes in DATA packets (first difference at %d)\n",
+			kind, len(up), res.upPkts, res.upSegs, len(down), i%5 == 4, c06Stall, len(res.hostGot), firstDiff(res.hostGot, up), len(res.clientGot), firstDiff(res.clientGot, down))
 		if res.malformed != "" {
 			r.Violation("c06-api-malformed", "a DATA packet sent to the client is not well-formed: "+res.malformed, rep)
 			continue
@@ -253,6 +263,12 @@ type relayResult struct {
 
 // relayOnce opens a tunnel through the real handler, relays `up` from the client
 // and `down` from the host concurrently, closes the channel and collects both ends.
+// c06BigSegs: the client's byte stream is delivered in very large transport messages / chunks.
+var c06BigSegs bool
+
+// c06Stall: the client stops reading for this long while the host is sending.
+var c06Stall time.Duration
+
 func relayOnce(kind string, g *gwServer, host *hostListener, port int, up, down []byte, rng interface {
 	Intn(int) int
 }) *relayResult {
@@ -315,6 +331,11 @@ func relayOnce(kind string, g *gwServer, host *hostListener, port int, up, down 
 		res.inconclusive = "no-backend-connection"
 		return res
 	}
+	if c06Stall > 0 {
+		atomic.StoreInt32(&pauseReaders, 1)
+		time.AfterFunc(c06Stall, func() { atomic.StoreInt32(&pauseReaders, 0) })
+		defer atomic.StoreInt32(&pauseReaders, 0)
+	}
 	var wg sync.WaitGroup
 	wg.Add(1)
 	go func() {
@@ -347,6 +368,9 @@ func relayOnce(kind string, g *gwServer, host *hostListener, port int, up, down 
 		n := 1 + rng.Intn(9000)
 		if rng.Intn(5) == 0 {
 			n = 1 + rng.Intn(12)
+		}
+		if c06BigSegs { // many packets coalesced into transport messages far larger than any one packet
+			n = 100000 + rng.Intn(300000)
 		}
 		if pos+n > len(stream) {
 			n = len(stream) - pos
